@@ -161,6 +161,19 @@ def units():
            "int v __attribute__((unused)), * __attribute__((unused)) w;", "int f(void) __attribute__((noreturn)), g(void);", "__extension__ __attribute__((unused)) int v;", "int a, __attribute__((unused)) b, * __attribute__((unused)) c;", "void f(int (__attribute__((unused)) *)(void));",
            "void f(int (* __attribute__((unused)) cb)(void), int __attribute__((unused)) [2]);",
            "int (g) = 1;", "int (*p) = 0;", "int ((a)) = 2, b = 3;", "char (s[4]) = \"abc\";", "void f(void) { int (x) = 1; }"]
+    # a GNU attribute in front of a declarator x the suffixes that follow it (one list of attributes, several array/function declarators
+    # built around the same identifier; seeded change C14-c made every one of them hold the list)
+    A = "__attribute__((unused))"
+    for sfx in ("", "[1]", "[1][2]", "[2][3][4]", "(int)", "(int, char)", "(void)"):
+        out += ["int a, %s b%s;" % (A, sfx), "int (%s b%s);" % (A, sfx), "int (%s b)%s;" % (A, sfx), "int * %s b%s;" % (A, sfx), "int %s b%s;" % (A, sfx),
+                "int a, * %s b%s, %s c%s;" % (A, sfx, A, sfx), "void f(int (%s p%s));" % (A, sfx), "void f(int %s p%s, int (%s q)%s);" % (A, sfx, A, sfx),
+                "void f(void) { int a, %s b%s; }" % (A, sfx), "typedef int T, %s U%s;" % (A, sfx)]
+        out += ["int a, %s (b)%s;" % (A, sfx), "int a, %s (*b)%s;" % (A, sfx), "int a, %s ((b))%s;" % (A, sfx), "struct S { int a, %s (b)%s; };" % (A, sfx) if not sfx.startswith("(") else "int a2, %s (b2)%s;" % (A, sfx),
+                "void f(int, int (%s (*))%s);" % (A, sfx), "void f(int (%s (*p))%s);" % (A, sfx)]
+        if sfx.startswith("["):
+            out += ["struct S { int a, %s b%s; };" % (A, sfx), "void f(int (%s %s));" % (A, sfx), "void f(int n, int (%s p)%s);" % (A, sfx.replace("1", "n"))]
+        if sfx.startswith("("):
+            out += ["int (%s *b%s)%s;" % (A, sfx, sfx), "int a, %s (*b)%s;" % (A, sfx)]
     for s in statements():
         out.append("void f(void) { %s }" % s)
     for e in expressions():
